@@ -9,8 +9,7 @@ Shared by C13 (included ranges) and C09 (chunking).  The input callback is a fun
 Ported: `ts_lexer__get_chunk`, `__clear_chunk`, `__get_lookahead` (with the retry), `ts_lexer_goto`,
 `__do_advance`, `__advance` (ASCII fast path), `__mark_end`, `__eof`, `__is_at_included_range_start`,
 `ts_lexer_reset`, `_start`, `_finish`, `_set_included_ranges` (+ `DEFAULT_RANGE`), `_set_input`.
-Not ported: logging, `get_column` (column cache is carried but `__get_column` itself is not),
-UTF-16 / custom decoders.  Tied to the C code by scripted runs of the real lexer (`cunit_c13.c`).
+`ts_lexer__get_column` is ported too (`getColumn`).  Not ported: logging, UTF-16 / custom decoders.  Tied to the C code by scripted runs of the real lexer (`cunit_c13.c`).
 -/
 namespace TsVerif.Lex
 open TsGen TsVerif.Utf
@@ -153,6 +152,27 @@ def Lexer.advance (read : Read) (l : Lexer) (skip : Bool) : Lexer :=
         { l with lookahead := nb }
       else l.doAdvance read skip
     else l.doAdvance read skip
+
+/-- The `while` loop of `ts_lexer__get_column` (fuelled by the distance to the goal). -/
+def getColumnLoop (read : Read) : Nat → Lexer → Nat → Lexer
+  | 0, l, _ => l
+  | fuel + 1, l, goal =>
+    if l.pos.bytes < goal && !l.eof && !l.chunk.isEmpty then
+      let l := l.doAdvance read false
+      if l.eof then l else getColumnLoop read fuel l goal
+    else l
+
+/-- `ts_lexer__get_column`: `(new state, column)`.  With a valid cache it is the cached value; otherwise
+the lexer goes back to the start of the line and re-advances to the current offset, counting characters. -/
+def Lexer.getColumn (read : Read) (l : Lexer) : Lexer × Nat :=
+  if !l.colValid then
+    let goal := l.pos.bytes
+    let l := l.goto ⟨l.pos.bytes - l.pos.extent.column, ⟨l.pos.extent.row, 0⟩⟩
+    let l := { l with colValid := true, colValue := 0 }
+    let l := l.getChunk read
+    let l := if !l.eof then getColumnLoop read (goal + 2) (l.getLookahead read) goal else l
+    (l, l.colValue)
+  else (l, l.colValue)
 
 /-- `ts_lexer__mark_end`. -/
 def Lexer.markEnd (l : Lexer) : Lexer :=
